@@ -254,6 +254,31 @@ def run_fn(case, ctx) -> None:
             ctx.violation(f"{key}:gradient-differs-from-eager:{bad_grad[0]}", bad_grad[1], cfg=cfg, constraint=constraint, dtype=case["dtype"])
         bad_out = bad_grad = None
     ctx.nontrivial(f"{case['fn']}|{constraint}|{case['dtype']}|{backend}|{sorted((k, str(v)) for k, v in cfg.items() if not isinstance(v, float))}")
+    # ---- history: the SAME compiled callable called again with another floating dtype (recompilation under guards) ------
+    if backend == "aot_eager" and case["fn"] != "conv1d" and dtype in (torch.float32, torch.float64):
+        dt2 = torch.float64 if dtype == torch.float32 else torch.float32
+        try:
+            def conv(ts):
+                return [t.detach().to(dt2).requires_grad_(t.requires_grad) if t.is_floating_point() else t.clone() for t in ts]
+            le2, lc2 = conv(leaves()), conv(leaves())
+            torch.manual_seed(0)
+            ye2 = f(*le2)
+            torch.manual_seed(0)
+            yc2 = cf(*lc2)
+            ctx.count("history:compiled-callable-reused-with-another-dtype")
+            bad2 = compare(yc2, ye2, tol_for(dt2, backend))
+            if not bad2 and ye2.requires_grad:
+                up2 = up.to(dt2)
+                g_e = torch.autograd.grad(ye2, [t for t in le2 if t.requires_grad], up2, allow_unused=True)
+                g_c = torch.autograd.grad(yc2, [t for t in lc2 if t.requires_grad], up2, allow_unused=True)
+                for a, b_ in zip(g_c, g_e):
+                    bad2 = bad2 or compare(a, b_, tol_for(dt2, backend))
+            if bad2:
+                ctx.violation(f"{key}:differs-from-eager-when-the-compiled-callable-is-reused-with-another-dtype", f"{case['dtype']} then {dt2}: {bad2}",
+                              cfg=cfg, constraint=constraint)
+        except Exception as e:
+            if not _dynamo_internal(e):
+                ctx.violation(f"{key}:raises-when-the-compiled-callable-is-reused-with-another-dtype:{exc_key(e)}", repr(e)[:400], cfg=cfg)
     # ---- plain torch.fx symbolic trace: forward values -------------------------------------------------
     if case.get("fx"):
         st = ctx.state
